@@ -38,8 +38,8 @@ def negative_control(ctx, beh, params):
   return True
 
 
-def model_check(ctx, cfg, actions=None, timeout=1500, cov=True):
-  r = tlc.run("recoco", "MCSched", cfg, tag=ctx.pid, timeout=timeout, coverage=cov)
+def model_check(ctx, cfg, actions=None, timeout=1500, cov=True, res=None):
+  r = res or tlc.run("recoco", "MCSched", cfg, tag=ctx.pid, timeout=timeout, coverage=cov)
   if r.violated:
     raise tlc.TLCError("Sched.tla violates %s in %s:\n%s" % (r.violated, cfg, r.error_trace[:3000]))
   if actions:
@@ -48,29 +48,42 @@ def model_check(ctx, cfg, actions=None, timeout=1500, cov=True):
   return r
 
 
-def export_edges(ctx, cfg, params, cap=None):
-  r = tlc.run("recoco", "MCSched", cfg, workers=1, coverage=False, tag=ctx.pid, timeout=1500)
+def export_edges(ctx, cfg, params, cap=None, res=None):
+  r = res or tlc.run("recoco", "MCSched", cfg, workers=1, coverage=False, tag=ctx.pid, timeout=1500)
   behs = prep(r.tagged("T"))
   if not behs:
     raise tlc.TLCError("no behaviours exported by " + cfg)
+  nall = len(behs)
   if cap and len(behs) > cap:
     import random
     rnd = random.Random(ctx.seed)
     behs = rnd.sample(behs, cap)
   st = core.replay(ctx, ADAPTER, behs, params=params, nontrivial=lambda b: len(b) > 1)
-  ctx.notes["replay " + cfg] = dict(behaviours=len(behs), **st)
+  ctx.notes["replay " + cfg] = dict(behaviours=len(behs), exported=nall, tlc_s=round(r.wall, 1), **st)
   return behs
 
 
-def simulate(ctx, cfg, num, depth, params, seed_off=0):
-  r = tlc.run("recoco", "MCSched", cfg, workers=1, coverage=False, simulate=dict(num=num),
-              depth=depth + 1, seed=ctx.seed + 11 + seed_off, tag=ctx.pid, timeout=1500)
+def simulate(ctx, cfg, num, depth, params, seed_off=0, res=None):
+  r = res or tlc.run(**sim_job(ctx, cfg, num, depth, seed_off))
   behs = prep(r.tagged("H"))
   if len(behs) < num // 2:
     raise tlc.TLCError("simulation %s exported only %d behaviours" % (cfg, len(behs)))
   st = core.replay(ctx, ADAPTER, behs, params=params, chunk=25, nontrivial=lambda b: len(b) > 1)
   ctx.notes["replay " + cfg] = dict(behaviours=len(behs), depth=depth, **st)
   return behs
+
+
+def sim_job(ctx, cfg, num, depth, seed_off=0):
+  return dict(spec_dir="recoco", module="MCSched", cfg=cfg, workers=1, coverage=False, simulate=dict(num=num),
+              depth=depth + 1, seed=ctx.seed + 11 + seed_off, tag=ctx.pid, timeout=1500)
+
+
+def mc_job(ctx, cfg, cov=True):
+  return dict(spec_dir="recoco", module="MCSched", cfg=cfg, tag=ctx.pid, timeout=2400, coverage=cov, workers=4)
+
+
+def ex_job(ctx, cfg):
+  return dict(spec_dir="recoco", module="MCSched", cfg=cfg, workers=1, coverage=False, tag=ctx.pid, timeout=2400)
 
 
 def run(ctx):
@@ -86,40 +99,48 @@ def run(ctx):
       "task programs: sequences of <=2 ops (<=3 over a smaller vocabulary) for 2-3 tasks; delays {0,1,2}; one fd",
       "scheduler stepped by the harness (cycle(), SelectHub._select, idle()); select() replaced by a polling "
       "shim that advances the virtual clock; threaded hub mode is stepped, not run on a real thread (C07 covers threads)",
-      "sub-unit task priorities (randomised by design) and CallBlocking are not modelled"]
+      "sub-unit task priorities (randomised by design) and CallBlocking are not modelled; Recv/Send are driven with "
+      "scripted sockets (full / 1-byte / would-block writes)"]
   pi = dict(threaded=False, nlocks=1)
   pt = dict(threaded=True, nlocks=1)
-  # 1. the property on the model
-  model_check(ctx, "MCQ_Q1i.cfg", ENV_Q)
-  model_check(ctx, "MCQ_Q1t.cfg", ENV_Q + ["QIdle"])
-  model_check(ctx, "MC_Ti.cfg", ["StartTimer", "CancelTimer", "Cycle", "HubSelect"])
-  model_check(ctx, "MCQ_S2i.cfg", ["Setup", "Cycle", "HubSelect"])
+  ENVT = ENV_Q + ["QIdle"]
+  TIM = ["StartTimer", "CancelTimer", "Cycle", "HubSelect"]
+  FULL = ["Cycle", "HubSelect", "WakeST", "WakeDirect", "FdSet", "Advance"]
+  # (cfg, coverage actions or None for liveness runs)
+  mcs = [("MCQ_Q1i.cfg", ENV_Q), ("MCQ_Q1t.cfg", ENVT), ("MC_Ti.cfg", TIM),
+         ("MCQ_S2i.cfg", ["Setup", "Cycle", "HubSelect"]), ("MCQ_IO1i.cfg", ["Setup", "Cycle", "HubSelect", "QFdSet"]),
+         ("LIVE_i.cfg", None), ("LIVE_t.cfg", None)]
   if not quick:
-    model_check(ctx, "MC_Tt.cfg", ["StartTimer", "CancelTimer", "Cycle", "HubSelect", "Idle"])
-    model_check(ctx, "MC_Q1i.cfg", ["Cycle", "HubSelect", "WakeST", "WakeDirect", "FdSet", "Advance"])
-    model_check(ctx, "MC_Q1t.cfg", ["Cycle", "HubSelect", "WakeST", "WakeDirect", "FdSet", "Advance", "Idle"])
-  # liveness (no state constraint, weak fairness of Cycle and HubSelect only)
-  model_check(ctx, "LIVE_i.cfg", cov=False)
-  model_check(ctx, "LIVE_t.cfg", cov=False)
-  # 2. spec -> code
-  b = export_edges(ctx, "EX_Q1i.cfg", pi, cap=6000 if quick else None)
-  okb = [b[i] for i in core.replay.last_ok if any(s["a"] == "Cycle" and s["exp"]["ran"] for s in b[i])]
-  if okb:
-    negative_control(ctx, max(okb, key=len), pi)
-  export_edges(ctx, "EX_Q1t.cfg", pt, cap=6000 if quick else None)
-  # every 2-op program of the full vocabulary on a single task (value/exception delivery at each resume)
-  export_edges(ctx, "EX_S2i.cfg", pi, cap=8000 if quick else None)
-  export_edges(ctx, "EX_S2t.cfg", pt, cap=4000 if quick else None)
-  export_edges(ctx, "EX_Ti.cfg", pi, cap=3000 if quick else None)
-  export_edges(ctx, "EX_Tt.cfg", pt, cap=3000 if quick else None)
+    mcs += [("MC_Tt.cfg", TIM + ["Idle"]), ("MC_Q1i.cfg", FULL), ("MC_Q1t.cfg", FULL + ["Idle"])]
+  # (cfg, adapter params, cap in quick)
+  exs = [("EX_Q1i.cfg", pi, 3000), ("EX_Q1t.cfg", pt, 2500), ("EX_S2i.cfg", pi, 4000), ("EX_S2t.cfg", pt, 2000),
+         ("EX_IO1i.cfg", pi, 3000), ("EX_IO2si.cfg", pi, 2000), ("EX_IO2st.cfg", pt, 1500),
+         ("EX_Ti.cfg", pi, 2000), ("EX_Tt.cfg", pt, 1500)]
   if not quick:
-    export_edges(ctx, "EX_Q2i.cfg", pi, cap=60000)
-  n = 150 if quick else 2500
-  simulate(ctx, "SIM_A2i.cfg", n, 14, pi)
-  simulate(ctx, "SIM_A2t.cfg", n, 14, pt)
-  simulate(ctx, "SIM_B3i.cfg", n, 14, pi)
-  simulate(ctx, "SIM_B3t.cfg", n, 14, pt)
+    exs.append(("EX_Q2i.cfg", pi, 60000))
+  n = 100 if quick else 2500
+  sims = [("SIM_A2i.cfg", n, 14, pi, 0), ("SIM_A2t.cfg", n, 14, pt, 0), ("SIM_B3i.cfg", n, 14, pi, 0),
+          ("SIM_B3t.cfg", n, 14, pt, 0)]
   if not quick:
-    simulate(ctx, "SIM_A2i_deep.cfg", 1500, 40, pi, 5)
-    simulate(ctx, "SIM_B3t_deep.cfg", 1500, 40, pt, 6)
+    sims += [("SIM_A2i_deep.cfg", 1500, 40, pi, 5), ("SIM_B3t_deep.cfg", 1500, 40, pt, 6)]
+  # all TLC runs are independent: run them concurrently, then replay
+  jobs = [mc_job(ctx, c, cov=a is not None) for c, a in mcs] + [ex_job(ctx, c) for c, _, _ in exs] + \
+         [sim_job(ctx, c, num, d, so) for c, num, d, _, so in sims]
+  res = tlc.run_many(jobs, parallel=6)
+  k = 0
+  for c, a in mcs:
+    model_check(ctx, c, a, res=res[k])
+    k += 1
+  first = True
+  for c, prm, cap in exs:
+    b = export_edges(ctx, c, prm, cap=cap if quick else (cap if cap > 50000 else None), res=res[k])
+    k += 1
+    if first:
+      first = False
+      okb = [b[i] for i in core.replay.last_ok if any(s["a"] == "Cycle" and s["exp"]["ran"] for s in b[i])]
+      if okb:
+        negative_control(ctx, max(okb, key=len), pi)
+  for c, num, d, prm, so in sims:
+    simulate(ctx, c, num, d, prm, so, res=res[k])
+    k += 1
   ctx.exhaustive = False
